@@ -457,6 +457,32 @@ WEAK_PAIRS = [
 GOOD_RNGS = ['shake128', 'pcg64', 'philox']
 
 
+def weak_run(name, prefix, lg, seed):
+  """sentence 2 on one (generator, seed): the real TestSource on rounds of 2**lg bits of the bundled generator
+  `name` (round i seeded seed + i), restricted to the documented test `prefix`.  True = reported as failed."""
+  from paranoid_crypto.lib.randomness_tests import random_test_suite as rts, rng as R
+  g = R.GetRng(name)
+  cnt = [0]
+
+  def source(n):
+    cnt[0] += 1
+    return g.RandomBits(n, seed=seed + cnt[0])
+  try:
+    return rts.TestSource(source, 2**lg, test_prefix=prefix, log_level=0)
+  except Exception as e:  # noqa
+    return 'raised %r' % (e,)
+
+
+def good_run(name, lg, seed, prefix=''):
+  """sentence 1 on one (generator, seed): the real TestBitString on 2**lg bits.  False = not reported."""
+  from paranoid_crypto.lib.randomness_tests import random_test_suite as rts, rng as R
+  bits = R.GetRng(name).RandomBits(2**lg, seed=seed)
+  try:
+    return rts.TestBitString(bits, 2**lg, test_prefix=(prefix or None), log_level=0)
+  except Exception as e:  # noqa
+    return 'raised %r' % (e,)
+
+
 def search(rep, rng, tier):
   """SEARCH ONLY (runs under `./check C13 --search`, ~2 min quick): sentences 1-2 of C13 have no
   theorem and no model.  For random seeds: every bundled weak generator must make the real
@@ -472,42 +498,72 @@ def search(rep, rng, tier):
   for name, prefix, lg in WEAK_PAIRS:
     for _ in range(1 if quick else 5):
       seed = rng.getrandbits(48)
-      g = R.GetRng(name)
-      cnt = [0]
-
-      def source(n, g=g, seed=seed, cnt=cnt):
-        cnt[0] += 1
-        return g.RandomBits(n, seed=seed + cnt[0])
-      try:
-        ret = rts.TestSource(source, 2**lg, test_prefix=prefix, log_level=0)
-      except Exception as e:  # noqa
-        ret = 'raised %r' % (e,)
+      ret = weak_run(name, prefix, lg, seed)
       runs.append((name, prefix, lg, seed, ret))
       if ret is not True:
         rep.violations.append(dict(
             op='su.weakgen', line='TestSource(%s seed=%d+round, n=2**%d, test_prefix=%r)' % (
                 name, seed, lg, prefix),
             what='documented weak generator %s is not failed by %s: returned %r' % (name, prefix, ret),
-            impl=repr(ret), model=None, info=None))
+            impl=repr(ret), model=None,
+            info=dict(replay=dict(kind='weakgen', generator=name, seed=seed, lg=lg, prefix=prefix))))
   for name in (GOOD_RNGS[:1] if quick else GOOD_RNGS):
     seed = rng.getrandbits(48)
-    bits = R.GetRng(name).RandomBits(2**20, seed=seed)
-    try:
-      ret = rts.TestBitString(bits, 2**20, log_level=0)
-    except Exception as e:  # noqa
-      ret = 'raised %r' % (e,)
+    ret = good_run(name, 20, seed)
     runs.append((name, 'ALL', 20, seed, ret))
     if ret is not False:
       rep.violations.append(dict(
           op='su.goodgen', line='TestBitString(%s seed=%d, n=2**20)' % (name, seed),
           what='cryptographic generator %s reported as failed at 1e-9: %r' % (name, ret),
-          impl=repr(ret), model=None, info=None))
+          impl=repr(ret), model=None,
+          info=dict(replay=dict(kind='goodgen', generator=name, seed=seed, lg=20, prefix=''))))
   rep.extra['sentences_1_2_search'] = dict(
       runs=len(runs), wall_s=round(time.time() - t0, 1),
       note='search only: seeds tried %r' % ([(r[0], r[1], r[3]) for r in runs],))
 
 
+def replay_search_record(doc):
+  """review-2 M8: a sentence-1/2 search miss has no driver line; its replay re-runs the REAL TestSource /
+  TestBitString on the stored (generator, seed, size, prefix) and fails only if the miss reproduces.  Records
+  written before the structured `info.replay` existed are parsed from their `line`."""
+  import re
+  import shims
+  shims.install()
+  rp = (doc.get('info') or {}).get('replay')
+  if not rp:
+    line = doc.get('line') or ''
+    m = re.match(r"TestSource\((\S+) seed=(\d+)\+round, n=2\*\*(\d+), test_prefix='([^']*)'\)$", line)
+    g = re.match(r"TestBitString\((\S+) seed=(\d+), n=2\*\*(\d+)\)$", line)
+    if m:
+      rp = dict(kind='weakgen', generator=m.group(1), seed=int(m.group(2)), lg=int(m.group(3)), prefix=m.group(4))
+    elif g:
+      rp = dict(kind='goodgen', generator=g.group(1), seed=int(g.group(2)), lg=int(g.group(3)), prefix='')
+    else:
+      print('replay: cannot parse the search record %r' % (line,))
+      return 2
+  if isinstance(rp.get('seed'), str):
+    rp['seed'] = int(rp['seed'], 16)          # framework.jsonable writes integers beyond 2^53 in hex
+  if rp['kind'] == 'weakgen':
+    ret = weak_run(rp['generator'], rp['prefix'], rp['lg'], rp['seed'])
+    print('replay: TestSource(%s seed=%d+round, n=2**%d, test_prefix=%r) -> %r' % (
+        rp['generator'], rp['seed'], rp['lg'], rp['prefix'], ret))
+    if ret is not True:
+      print('VIOLATION property=C13 documented weak generator %s is not failed by %s' % (rp['generator'], rp['prefix']))
+      return 1
+    print('replay: not reproduced on the current tree (the weak generator is reported as failed)')
+    return 0
+  ret = good_run(rp['generator'], rp['lg'], rp['seed'], rp.get('prefix') or '')
+  print('replay: TestBitString(%s seed=%d, n=2**%d) -> %r' % (rp['generator'], rp['seed'], rp['lg'], ret))
+  if ret is not False:
+    print('VIOLATION property=C13 cryptographic generator %s reported as failed at 1e-9' % rp['generator'])
+    return 1
+  print('replay: not reproduced on the current tree (the generator passes)')
+  return 0
+
+
 def replay(doc):
+  if doc.get('op') in ('su.weakgen', 'su.goodgen'):
+    return replay_search_record(doc)
   line = doc.get('line')
   if not line:
     print('replay file has no request line (obligation-broken record)')
